@@ -65,6 +65,8 @@ pub struct Run<'a> {
     /// close our end of stdout after reading this many bytes (None = read everything)
     pub close_stdout_after: Option<usize>,
     pub tmpdir: Option<&'a Path>,
+    /// shrink the stdout pipe to this many bytes (the child then blocks in write until we read)
+    pub stdout_pipe_size: Option<usize>,
 }
 impl<'a> Run<'a> {
     pub fn new<S: AsRef<str>>(args: &[S]) -> Self {
@@ -75,6 +77,7 @@ impl<'a> Run<'a> {
             timeout: Duration::from_secs(20),
             close_stdout_after: None,
             tmpdir: None,
+            stdout_pipe_size: None,
         }
     }
     pub fn stdin(mut self, b: &'a [u8]) -> Self {
@@ -91,6 +94,10 @@ impl<'a> Run<'a> {
     }
     pub fn timeout_s(mut self, s: u64) -> Self {
         self.timeout = Duration::from_secs(s);
+        self
+    }
+    pub fn stdout_pipe_size(mut self, n: usize) -> Self {
+        self.stdout_pipe_size = Some(n);
         self
     }
     pub fn close_stdout_after(mut self, n: usize) -> Self {
@@ -126,6 +133,12 @@ impl<'a> Run<'a> {
         }
         let mut so = child.stdout.take().unwrap();
         let mut se = child.stderr.take().unwrap();
+        if let Some(sz) = self.stdout_pipe_size {
+            use std::os::unix::io::AsRawFd;
+            unsafe {
+                libc::fcntl(so.as_raw_fd(), libc::F_SETPIPE_SZ, sz as libc::c_int);
+            }
+        }
         let close_after = self.close_stdout_after;
         let out_thread = std::thread::spawn(move || {
             let mut buf = Vec::new();
